@@ -945,6 +945,9 @@ func wrapperMemberNamesRule(c *Ctx, r *Report, p *Prov, rule string) {
 			preds = append(preds, f)
 		}
 	}
+	for _, g := range preds {
+		wrapperPredicateTableRule(c, r, g, rule)
+	}
 	isPred := func(f *ssa.Function) bool {
 		for _, g := range preds {
 			if g == f {
@@ -1010,9 +1013,26 @@ func wrapperMemberNamesRule(c *Ctx, r *Report, p *Prov, rule string) {
 					continue
 				}
 				if g := c.staticPkgCallee(&pc.Call); g != nil && isPred(g) {
-					for _, arg := range pc.Call.Args {
+					// the key goes where the predicate compares with the member names
+					keyIdx := -1
+					allInstrs(g, func(gi ssa.Instruction) {
+						if bo, ok := gi.(*ssa.BinOp); ok && (bo.Op == token.EQL || bo.Op == token.NEQ) {
+							for _, pr := range [][2]ssa.Value{{bo.X, bo.Y}, {bo.Y, bo.X}} {
+								if sv, isC := constString(pr[1]); isC && sv == "base64" {
+									if prm, isP := peel(pr[0]).(*ssa.Parameter); isP {
+										for pi, q := range g.Params {
+											if q == prm {
+												keyIdx = pi
+											}
+										}
+									}
+								}
+							}
+						}
+					})
+					for ai, arg := range pc.Call.Args {
 						e2, n2, l2 := elemFieldLoad(peel(canon(arg)))
-						if l2 && n2 == "Key" && e2 == e {
+						if l2 && n2 == "Key" && e2 == e && (keyIdx < 0 || ai == keyIdx) {
 							okGuard, how = true, "under !"+g.Name()+"(parent, key)"
 						}
 					}
